@@ -55,6 +55,11 @@ func (prNoop) OnTerminate()                                    {}
 // data <-> bytes for a signature letter
 func prEncode(sig string, data int64) (value.Value, []byte) {
 	var b bytes.Buffer
+	if len(sig) == 3 && sig[0] == '(' && sig[2] == ')' {
+		// the one-member tuple of a type: the same bytes under another signature
+		_, raw := prEncode(sig[1:2], data)
+		return value.Opaque(sig, raw), raw
+	}
 	switch sig {
 	case "i":
 		binary.Write(&b, binary.LittleEndian, int32(data))
@@ -445,7 +450,7 @@ func runC14(r *Rand, tier string, o *Out) {
 					sig = "i"
 				}
 				if r.Chance(25) {
-					sig = []string{"i", "I", "f", "s", "b"}[r.Intn(5)] // possibly the wrong type
+					sig = []string{"i", "I", "f", "s", "b", "(i)", "(s)", "(f)"}[r.Intn(8)] // possibly the wrong type, possibly the declared one wrapped in a tuple
 					o.Count("write:type-drawn-at-random")
 				}
 				out := o.Do("P", fmt.Sprintf("pr.set %s %s %s %s %d", t, kind, x, sig, data), true)
